@@ -235,8 +235,9 @@ example : quiescent (run [.register a1, .register a2, .unregister 1, .applyTask 
 /-! ## register / unregister after the task handler was closed (`TaskHandler.flush()`, i.e. after shutdown)
 
   `registerClosed` / `unregisterClosed` (Model/ConfigSvc.lean) run the regenerated `addCustomRefused` /
-  `removeCustomRefused`: the statements of `add_custom` / `remove_custom` with the submission inside `__trigger_update`
-  refused.  `e` is whatever `submit_task` raises (C09: `IllegalStateException`, a `BaseException`). -/
+  `removeCustomRefused`: the statements of `add_custom` / `remove_custom` CUT at `self.__trigger_update(…)`, whose
+  submission is refused — the exception leaves there, nothing after that statement is executed (a statement moved
+  behind the call is lost after close, and `addCustomRefused_eq` / these theorems then fail to build).  `e` is whatever `submit_task` raises (C09: `IllegalStateException`, a `BaseException`). -/
 
 /-- **register after close** — the registration IS stored (both lists, under the fresh handle), nothing is queued —
     so it will never be installed — and the refusal leaves `register_tracepoint` instead of the handle: the caller
@@ -245,7 +246,7 @@ theorem c13_register_after_close (v : Svc) (w : Wf v) (t : Trig) (e : Py.Exn) :
     (registerClosed v (some t) e).1.customIds.zip (registerClosed v (some t) e).1.custom =
       v.customIds.zip v.custom ++ [(v.nextHandle, t)] ∧
     (registerClosed v (some t) e).1.queued = v.queued ∧
-    (registerClosed v (some t) e).2.2 = some e ∧
+    (registerClosed v (some t) e).2 = (none, some e) ∧
     (registerClosed v (some t) e).1.polled = v.polled ∧ (registerClosed v (some t) e).1.hash = v.hash ∧
     Wf (registerClosed v (some t) e).1 := by
   have e1 : (registerClosed v (some t) e).1 = { (addCustom v (some t)).1 with queued := v.queued } := by
@@ -253,7 +254,7 @@ theorem c13_register_after_close (v : Svc) (w : Wf v) (t : Trig) (e : Py.Exn) :
   refine ⟨?_, ?_, ?_, ?_, ?_, ?_⟩
   · rw [e1]; exact zip_addCustom v t w
   · rw [e1]
-  · simp [registerClosed, registerSubmits_eq]
+  · simp [registerClosed, addCustomRefused_eq]
   · rw [e1]; rfl
   · rw [e1]; rfl
   · rw [e1]; exact wf_queued _ _ (wf_addCustom v t w)
@@ -261,8 +262,8 @@ theorem c13_register_after_close (v : Svc) (w : Wf v) (t : Trig) (e : Py.Exn) :
 /-- a registration that cannot be interpreted never reaches the submission: after close it still returns its handle
     quietly and changes nothing but the handle supply -/
 theorem c13_register_bad_after_close (v : Svc) (e : Py.Exn) :
-    registerClosed v none e = ({ v with nextHandle := v.nextHandle + 1 }, v.nextHandle, none) := by
-  simp [registerClosed, registerSubmits_eq, addCustomRefused_eq, addCustom_none_eq]
+    registerClosed v none e = ({ v with nextHandle := v.nextHandle + 1 }, some v.nextHandle, none) := by
+  simp [registerClosed, addCustomRefused_eq, addCustom_none_eq]
 
 /-- **unregister after close removes exactly it** — the handle's registration, and only that one, leaves both lists
     (they stay parallel), nothing is queued — the handler keeps acting on what was installed — and the refusal leaves
@@ -282,7 +283,7 @@ theorem c13_unregister_after_close_exact (v : Svc) (w : Wf v) (h : Handle) (t : 
     show (removeCustom v h).customIds.zip (removeCustom v h).custom = _
     rw [zip_removeCustom v h w]
     exact filter_eq_erase _ h t (by rw [map_fst_regs _ w]; exact w.nodup) hm
-  · simp only [unregisterClosed, unregisterSubmits_eq]
+  · simp only [unregisterClosed, removeCustomRefused_eq]
     cases hf : v.customIds.findIdx? (fun x => x == h) with
     | none => exact absurd hin (findIdx_none_not_mem _ _ hf)
     | some i => rfl
@@ -292,10 +293,11 @@ theorem c13_unregister_after_close_exact (v : Svc) (w : Wf v) (h : Handle) (t : 
 theorem c13_unregister_unknown_after_close (v : Svc) (h : Handle) (hn : h ∉ v.customIds) (e : Py.Exn) :
     unregisterClosed v h e = (v, none) := by
   have hf := findIdx_none_of_not_mem _ _ hn
-  simp [unregisterClosed, unregisterSubmits_eq, removeCustomRefused_eq, removeCustom_none v h hf, hf]
+  simp [unregisterClosed, removeCustomRefused_eq, removeCustom_none v h hf, hf]
 
-/-- for every sequence of register / unregister calls on a closed handler nothing is ever queued, the service's own
-    configuration and hash are untouched, and the two lists stay parallel with distinct handles -/
+/-- for every sequence of register / unregister calls on a closed handler the service's own configuration and hash are
+    untouched and the two lists stay parallel with distinct handles (the informative part); nothing is queued — that
+    conjunct is true by construction of the refused translation, which has no submission in it -/
 theorem c13_closed_never_queues (e : Py.Exn) (ops : List ClosedOp) (v : Svc) (w : Wf v) :
     (ops.foldl (closedStep e) v).queued = v.queued ∧ (ops.foldl (closedStep e) v).polled = v.polled ∧
     (ops.foldl (closedStep e) v).hash = v.hash ∧ Wf (ops.foldl (closedStep e) v) := by
@@ -335,7 +337,7 @@ example :
     let r1 := unregisterClosed s.svc 1 .base
     let r2 := unregisterClosed r1.1 1 .base
     let r3 := registerClosed r2.1 (some ⟨"a.py", 1, "w3"⟩) .base
-    r1.2 = some .base ∧ r1.1.custom = [⟨"a.py", 1, "w1"⟩] ∧ r2 = (r1.1, none) ∧ r3.2.2 = some .base ∧
+    r1.2 = some .base ∧ r1.1.custom = [⟨"a.py", 1, "w1"⟩] ∧ r2 = (r1.1, none) ∧ r3.2 = (none, some .base) ∧
     r3.1.customIds = [0, 2] ∧ r3.1.queued = [] ∧ s.h.installed = [⟨"a.py", 1, "w1"⟩, ⟨"a.py", 1, "w2"⟩] := by decide
 
 
